@@ -264,7 +264,15 @@ def _loop_spec(eng, node, fr):
     ordinal = fr.fn["ordinals"][id(node)]
     spec = eng.cur.loops.get(ordinal)
     if spec is None:
-        raise Unsupported(f"loop {ordinal} (line {node.lineno}) of {eng.cur.key} has no invariant")
+        if not eng.cur.loops:
+            raise Unsupported(f"loop {ordinal} (line {node.lineno}) of {eng.cur.key} has no invariant")
+        # the contract knows fewer loops than the (changed) code has: the extra loop is cut at the trivial invariant
+        # (sound: nothing is assumed about it); the obligation below records the mismatch
+        from .contract import Loop
+        spec = Loop(lambda S, a: [])
+        eng.oblige("contract-shape", f"loop {ordinal} (line {node.lineno}) has a loop specification in the contract "
+                                     f"(the contract covers loops {sorted(eng.cur.loops)})", St(fr.fn["entry"].env, fr.fn["entry"].heap, [], {}),
+                   z3.BoolVal(False), node)
     return ordinal, spec
 
 
